@@ -143,16 +143,22 @@ def check(entry, seed):
             if mid == perm[1:-1]:
                 mid = mid[::-1]
             perm = [0] + mid + [n - 1]
+            # three permutations of the interior: a random shuffle, the reversal, one swap of neighbours (a defect may need a particular order:
+            # ie_Solver's non-monotone interpolation grid showed only for some)
+            perms = [perm, [0] + list(range(n - 2, 0, -1)) + [n - 1], [0, 2, 1] + list(range(3, n))]
             try:
-                solP = s(arr[perm], t)
                 okp = True
-                for k in names:
-                    a_, b_ = np.asarray(solA[k])[perm], np.asarray(solP[k])
-                    if a_.dtype.kind in 'USO':
-                        okp = okp and bool(np.all(a_ == b_))
-                    else:
-                        a_ = a_.astype(float); b_ = b_.astype(float)
-                        okp = okp and bool(np.all((np.abs(a_ - b_) <= 1e-9 * (np.abs(a_) + np.abs(b_)) + 1e-300) | (np.isnan(a_) & np.isnan(b_))))
+                for perm in perms:
+                    solP = s(arr[perm], t)
+                    for k in names:
+                        a_, b_ = np.asarray(solA[k])[perm], np.asarray(solP[k])
+                        if a_.dtype.kind in 'USO':
+                            okp = okp and bool(np.all(a_ == b_))
+                        else:
+                            a_ = a_.astype(float); b_ = b_.astype(float)
+                            okp = okp and bool(np.all((np.abs(a_ - b_) <= 1e-9 * (np.abs(a_) + np.abs(b_)) + 1e-300) | (np.isnan(a_) & np.isnan(b_))))
+                    if not okp:
+                        break
                 out['order_preserved'] = okp
                 out['order_perm'] = perm
             except Exception as ex:
